@@ -75,7 +75,7 @@ def generate(seed, tier):
     chain = []
     for i in range(nlife):
         mp = s.random() < 0.5
-        chain.append({'mp': mp, 'name': f"L{i}{'m' if mp else 's'}", 'width': s.randint(1, 4), 'schedule': {'policy': 'seeded'}, 'seed': f'{seed}/L{i}'})
+        chain.append({'mp': mp, 'name': f"L{i}{'m' if mp else 's'}", 'width': s.randint(1, 4), 'schedule': {'policy': 'seeded'}, 'seed': f'{seed}/L{i}', 'isolation': s.choice(['inproc', 'fork'])})
     if method == 'qflag':
         chain = []      # qflag does no molecule assignment (every fragment is its own molecule): api layer only
     params = {'method': method, 'encoded': w.random() < 0.6, 'lib': 'LIB', 'cap_cli': w.choice([None, None, 2]), 'cli_hd': w.choice([None, None, 0])}
